@@ -46,6 +46,9 @@ func ParseSwagger(spec *openapi3.Swagger, opts SchemaOptions) (*Spec, error) {
 
 	for _, pathKey := range sortedKeys(spec.Paths) {
 		pathItem := spec.Paths[pathKey]
+		if pathItem == nil {
+			return nil, fmt.Errorf("path %q: path item is empty (null)", pathKey)
+		}
 		pi := NewPathItem(pathKey)
 		for _, method := range httpMethods() {
 			operation := pathItem.GetOperation(string(method.HTTP))
